@@ -74,16 +74,23 @@ def run(tier):
         outcome.report(signature(r), dict(family="ingest", rejected_event=r.event, reason=r.reason, spec="IngestTrace.tla"))
     vlib.log("[validate] %d vector outcomes, %d rejected" % (stats["events"], len(rejs)))
     total, distinct = vlib.distinct_lines(files)
+    # histories: what one message does can depend on what an earlier one stored (value shapes meeting each other)
+    import p_cachefam
+    hn, hl = (400, 60) if tier == "quick" else (20000, 80)
+    hist = p_cachefam.panic_phase(outcome, work, drv, hn, hl, shards=int(sh))
     rc = outcome.finish()
     vlib.write_evidence(PID, tier, "model_checking", dict(
-        states=nvec, transitions=nvec, traces_validated_against_impl=d.get("events", 0),
+        states=nvec, transitions=nvec, traces_validated_against_impl=d.get("events", 0) + hist["scenarios"],
+        history_scenarios=hist["scenarios"], history_events=hist["events"],
         samples=vlib.sample_lines(files, 3, skip=lambda l: len(l) > 900),
         evaluations=stats["events"], distinct_nontrivial=distinct,
         rule="the complete shape lattices of Ingest.tla as enumerated by TLC: notifications = 8 prefix shapes x 11 path shapes (nil, empty, meta, meta/sync, "
              "meta/connected, meta/connectError, meta/targetLeaves, normal, keyed, glob, deprecated element) x 10 value shapes (nil, no arm, scalars, leaflist with "
              "nil element, json, nil inner decimal, deprecated Value) x atomic x 0-2 updates x 0-1 deletes x equal/newer timestamp x 6 cache state classes, each fed "
              "directly and as the collector stamps it, followed by UpdateMetadata/UpdateSize/Reset; subscribe requests = 1680 shapes; responses = 3168 shapes through "
-             "CacheClient and the CLI in 4 display types. distinct_nontrivial = distinct recorded vector outcomes",
+             "CacheClient and the CLI in 4 display types; plus random cache histories (all 12 value arms with near-equal and prefix-related payloads meeting "
+             "each other on the same leaf, same-timestamp variants, wildcard deletes, lifecycle calls) validated by CacheTrace.tla where a panic of the real "
+             "code is a rejected call. distinct_nontrivial = distinct recorded vector outcomes",
         exhaustive=True, panics=d.get("panics", 0), rejected=len(rejs), known_findings_hit=outcome.known, model_drift=0,
         checker_cmd="tlc Ingest.tla (3 families, vector generation); tlc IngestTrace.tla per shard"),
         ["TLC and the TLA+ Json/IOUtils modules", "only protobuf-valid structured messages are enumerated: coverage-guided byte-level fuzzing of the wire format is outside this technique",
@@ -95,5 +102,10 @@ def run(tier):
 
 
 def replay(path):
+    with open(path) as f:
+        rp = json.load(f)
+    if rp.get("family") == "cache":
+        import p_cachefam
+        return p_cachefam.replay_family(PID, path)
     vlib.log("C12 vectors are enumerated exhaustively: replay = re-run")
     return run("quick")
